@@ -106,8 +106,7 @@ def sensitivity():
             return 'caught, no failing input' if 'no-failing-input-found' in log else 'caught'
         first[cls(fv.get(prop, cur[prop]), 'first')] += 1
         final[cls(cur[prop], 'final')] += 1
-    out.insert(0, f"**Summary.** {n} confirmed seeded changes (up to four rounds per property; every later round was asked for subtler triggers and given the earlier "
-                  f"rounds' summaries to avoid).  First run against the registered check: {dict(first)}.  After strengthening the checks "
+    out.insert(0, f"**Summary.** {n} confirmed seeded changes (up to six rounds per property: rounds 2-4 were asked for subtler triggers and given the earlier rounds\' summaries to avoid; rounds 5 and 6, in the second session, were given nothing but the property text and had to sit in three different functions with multi-step / shared-state / two-site triggers).  First run against the registered check: {dict(first)}.  After strengthening the checks "
                   f"(generators/oracles/theorems extended, never loosened): {dict(final)}.\n")
     out.append('\n**Own mutation catalogue** (`tools/mutations/`, incl. the inverse of every `fix:` commit): ' +
                'which stage caught each is tabulated in the `docs/Cnn.md` of its property; counts per property are in the status table above.')
